@@ -79,9 +79,13 @@ def top_decl(t, i):
     names = {}
 
     def body(tt, prefix, path):
+        # adversarial member names: an EARLIER member's name has every later sibling's name as a proper prefix
+        # (aaa, aa, a), and the names hoisted out of anonymous members extend a sibling's name (aa_aa, aa_a),
+        # so a member lookup that accepts a prefix match, or the first match, resolves to the wrong member
         out = []
+        nsub = len(tt["sub"])
         for j, m in enumerate(tt["sub"]):
-            nm = "%s_%d" % (prefix, j)
+            nm = (prefix + "_" if prefix else "") + "a" * (nsub - j)
             names[path + (j,)] = nm
             if m["k"] == "agg":
                 inner = body(m, nm, path + (j,))
@@ -108,7 +112,7 @@ def top_decl(t, i):
             else:
                 out.append("%s %s;" % (CT[m["id"]], nm))
         return " ".join(out)
-    b = body(t, "m", ())
+    b = body(t, "", ())
     return "typedef %s%s { %s } T%d;" % ("union" if t["union"] else "struct", at, b, i), names
 
 
@@ -180,7 +184,35 @@ def render_walk(i, w):
     for s in steps:
         a, k = s["a"], s["step"]
         act = a["act"]
-        if act in ("store", "opassign", "storeagg"):
+        if act == "nested":
+            p, r = paths[a["pi"] - 1], paths[a["pj"] - 1]
+
+            def spell(pp, salt):
+                bf = pick(BASEFORMS[:4], w["sid"], k, w["salt"], salt)
+                ix = pick(IDXFORMS, w["sid"], k, w["salt"], salt + "i")
+                if bf == "arrow":
+                    return path_expr(t, names, pp["hops"], None, ix, arrow="p")
+                if bf == "addr_arrow":
+                    return path_expr(t, names, pp["hops"], None, ix, arrow="(&%s)" % OBJ)
+                return path_expr(t, names, pp["hops"], "(*p)" if bf == "deref_dot" else OBJ, ix)
+            e, er = spell(p, "np"), spell(r, "nr")
+            plain = path_expr(t, names, p["hops"], "(*p)", "index")
+            plain_r = path_expr(t, names, r["hops"], "(*p)", "index")
+            cp = "(char *)" if p["id"] == "ptr" else ""
+            cr = "(char *)" if r["id"] == "ptr" else ""
+            v = IVAL[a["v"]] if r["t"] != "bool" else (IVAL["zero"] if a["v"] == "zero" else IVAL["one"])
+            how = a["op"]
+            if how == "chain":
+                x = "%s = %s(long)(%s = %s%s)" % (e, cp, er, cr, lit(v))
+            elif how == "call":
+                src.append("static long wr%d_%d(T%d *p) { %s = %s%s; return %s; }" % (i, k, i, plain_r, cr, lit(v), lit(IVAL["pat"])))
+                x = "%s = %swr%d_%d(p)" % (e, cp, i, k)
+            elif how == "preinc":
+                x = "%s = %s(long)(++%s)" % (e, cp, er)
+            else:
+                x = "%s = %s(long)(%s++)" % (e, cp, er)
+            f.append(" { long r = (long)(%s); long g = (long)%s; dump(%d, %d, r, g, pre, p, sizeof *p, post, q); }" % (x, plain, i, k))
+        elif act in ("store", "opassign", "storeagg"):
             p = paths[a["pi"] - 1]
             bform = pick(BASEFORMS, w["sid"], k, w["salt"], "b")
             iform = pick(IDXFORMS, w["sid"], k, w["salt"], "i")
@@ -292,7 +324,7 @@ def judge_walk(i, w, lines):
             return [("%s:%s:source" % (act, pid), "step %d: the source object of the copy changed" % k)]
         if not eq_masked(hexmask(m["obj"]), obj):
             return [("%s:%s:mem" % (act, pid), "step %d (%s path %d %s): memory %s, Level A %s" % (k, act, a["pi"], a["v"], obj, hexmask(m["obj"])))]
-        if a["act"] in ("store", "opassign"):
+        if a["act"] in ("store", "opassign", "nested"):
             p = paths[a["pi"] - 1]
             lv = p["lv"]
             pos = lv["off"] * 8 + lv.get("bitoff", 0) if "unit" not in lv else a["pos"]
